@@ -60,8 +60,7 @@ Proof. exact cte_rehome_attrs. Qed.
 Print Assumptions C05_cte_partial.
 
 (** ** Refinement to the reference semantics, with types.  [row_rel x c]: the
-    reference row entry x and sqlc's result column c have the same name (or x,
-    an un-aliased expression, has none), and if x comes from a catalog column,
+    reference row entry x and sqlc's result column c have the same name, and if x comes from a catalog column,
     c has that column's data type, nullability and array-ness.  For a simple
     SELECT sqlc and the reference semantics accept the same statements and
     their rows are related column by column - whether the column is referenced
